@@ -57,6 +57,8 @@ def main() -> int:
         chk = Check(pid, getattr(mod, "LEVEL", "other"), args.tier, args.repo)
         chk.count("source_digest", repo.digest)
         chk.count("python_modules", len(repo.modules))
+        # functions whose local vocabulary was normalised before the rules ran (sa/alpha.py); empty on the reference tree
+        chk.count("vocabulary_normalised_functions", {f"{m}:{q}": e for m, lg in sorted(repo.alpha_log.items()) for q, e in sorted(lg.items())})
         chk.count("python_functions", sum(len(m.functions) for m in repo.modules.values()))
         mod.run(repo, chk)
         explain = args.explain or args.replay
